@@ -70,6 +70,33 @@ fn take_returns_registered() {
     assert!(lw.take().is_none());
 }
 
+/// A sink that fails once its room is used up (a fixed line buffer, a log sink that went away).
+struct SmallSink { room: usize }
+impl core::fmt::Write for SmallSink {
+    fn write_str(&mut self, s: &str) -> core::fmt::Result {
+        if s.len() > self.room { Err(core::fmt::Error) } else { self.room -= s.len(); Ok(()) }
+    }
+}
+
+/// Debug-formatting a LocalWaker — into a sink that may fail at any point — leaves the registration alone: the
+/// registered task is still the one woken, exactly once   [C17]
+#[kani::proof]
+#[kani::unwind(6)]
+fn debug_formatting_keeps_the_registration() {
+    use core::fmt::Write as _;
+    let (lw, st) = any_local_waker();
+    let room: usize = kani::any();
+    kani::assume(room <= 24);
+    let mut sink = SmallSink { room };
+    let _ = write!(sink, "{:?}", lw);
+    let before = [woken(0), woken(1), woken(2)];
+    lw.wake();
+    match st {
+        Some(a) => assert_eq!(woken(a), before[a] + 1),
+        None => assert!(woken(0) == before[0] && woken(1) == before[1] && woken(2) == before[2]),
+    }
+}
+
 #[kani::proof]
 fn reach() {
     let (lw, st) = any_local_waker();
